@@ -54,8 +54,9 @@ PROP = {
             "command (EXECABORT), a command failing inside EXEC, a journal DEL. EVERY request prefix (state replayed with the fault failing again) -> fresh "
             "process StartPoint; resumed run from a random crash point to the end. Monitors independent of any model (unit committed = its data key exists): "
             "resume at a unit boundary with every earlier unit committed; sync: exactly the last committed; bisyncSeq = number of that unit; resume never "
-            "moves backwards along the log; a start whose own frontier HSET failed is not undercut by the next; in-memory bisyncSeq/bisyncOffset at every "
-            "request is a committed prefix; second StartPoint of the SAME process (fast path), and a third after a full resynchronisation moved the root "
+            "moves backwards along the log; a start whose own frontier HSET failed is not undercut by the next; in-memory bisyncSeq and bisyncOffset at every "
+            "request each name a committed prefix (sampled from the double's connection goroutines while the loop stores the two one after the other: judged "
+            "one by one; that both name the SAME unit is judged where the code reads them - after the loop returned and at the next StartPoint of the process); second StartPoint of the SAME process (fast path), and a third after a full resynchronisation moved the root "
             "forward (real ResetStartPoint + setCheckpoint): the new root, not the in-memory frontier; resumed run leaves no unit uncommitted. "
             "distinct_nontrivial = distinct (mode, #requests, journal size, index size) with clean-up / (#events, #requests) / advancing rebuilds",
     "trusted": ["target double harness/overlay/pkg/vfdoubles/target.go (HSET/HGETALL/DEL/ZADD/ZREM/ZRANGEBYSCORE/INFO keyspace/SELECT semantics of a standalone Redis)",
